@@ -21,10 +21,14 @@ def main():
         missed = []
         for chk in sorted({r["check"] for r in runs}):
             rs = [r for r in runs if r["check"] == chk]
-            hit = [r for r in rs if r["exit"] == 1]
-            if hit:
-                tiers = sorted({r["tier"] for r in hit})
-                caught.append(f"{chk} ({'quick' if 'quick' in tiers else 'thorough'})")
+            # the LATEST run of each tier is what the machinery does now
+            last = {}
+            for r in rs:
+                last[r["tier"]] = r
+            if last.get("quick", {}).get("exit") == 1:
+                caught.append(f"{chk} (quick)")
+            elif last.get("thorough", {}).get("exit") == 1:
+                caught.append(f"{chk} (thorough)")
             else:
                 missed.append(chk)
         desc = re.sub(r"\s+", " ", m.get("description", ""))[:150].replace("|", "/")
